@@ -1,1 +1,77 @@
-(* Props/C13.v -- stub, to be filled *)
+(* C13 -- the token sequence and every token's location are invariant under whitespace / comment layout.
+   This file only pins statements; model in Front/Lex.v, specification (render, lex_safe,
+   positions) and proofs in Front/LexProofs.v.
+
+   Coverage of the (full, not partial) theorems: every token list whose text items are non-empty runs of
+   non-control, non-blank, non-separator characters without "--" and "/*" that do not end in '-', and whose
+   separator items are the 13 separator characters of the tokenizer; every layout that puts at each of the
+   n+1 boundaries a gap = list of items from
+     space | tab | CR LF | LF | "--" c (LF | CR LF)  with c free of CR, LF
+     | "/*" body "*/"  with body a balanced sequence of characters (other than '*', '/', CR, LF), LF, CR LF,
+       nested "/*" and "*/", nesting depth below 2^31 - 1 (nest_lvl is an i32);
+   two adjacent text items need a non-empty gap (X.680 12.1); both cargo profiles (forall m).
+   Outside: '*' and '/' as comment content, "--" c "--" comments, lone CR (covered by the differential tie only).
+   History: before repair 58b7ab0 of /repo a block comment did not push the pending token, so
+   SEQUENCE/* c */OF gave the single token SEQUENCEOF (class block_comment_only_gap); the model follows the
+   repaired code and the theorems hold for every lex_safe layout. *)
+From A1 Require Import Front.Lex Front.LexProofs.
+Local Open Scope N_scope.
+
+(* the tokenizer returns exactly the printed items at the places where they were printed *)
+Theorem C13_tokenize : forall m ts gs, lex_safe ts gs ->
+  tokenize m (render ts gs) = Ok (expect ts gs).
+Proof. exact tokenize_render. Qed.
+
+Theorem C13_layout_invariant : forall m ts g1 g2, lex_safe ts g1 -> lex_safe ts g2 ->
+  exists o1 o2, tokenize m (render ts g1) = Ok o1 /\ tokenize m (render ts g2) = Ok o2 /\
+                map strip o1 = ts /\ map strip o2 = map strip o1.
+Proof. exact layout_invariant. Qed.
+
+Theorem C13_locations : forall m ts g, lex_safe ts g ->
+  exists o, tokenize m (render ts g) = Ok o /\ map loc o = positions ts g.
+Proof. exact locations. Qed.
+
+(* `positions` is intrinsic: line/column (1-based, LF-counted) of the offsets at which the items lie *)
+Theorem C13_positions_intrinsic : forall ts gs,
+  positions ts gs = map (pos_at (render ts gs)) (offsets ts gs).
+Proof. exact positions_at. Qed.
+
+(* SEQUENCE/* c */OF : two tokens, at (1,1) and (1,16) (S..E = columns 1-8, the comment = columns 9-15) *)
+Definition w_ts : list ptoken := [PText [83; 69; 81; 85; 69; 78; 67; 69]; PText [79; 70]].
+Definition w_gs : list gap := [[]; [GBlock [CChar 32; CChar 99; CChar 32]]; []].
+
+Example C13_fixed_block_comment_gap :
+  lex_safe w_ts w_gs /\
+  render w_ts w_gs = [83; 69; 81; 85; 69; 78; 67; 69; 47; 42; 32; 99; 32; 42; 47; 79; 70] /\
+  tokenize dev_mode (render w_ts w_gs) = Ok [Text 1 1 [83; 69; 81; 85; 69; 78; 67; 69]; Text 1 16 [79; 70]] /\
+  tokenize release_mode (render w_ts w_gs) = Ok [Text 1 1 [83; 69; 81; 85; 69; 78; 67; 69]; Text 1 16 [79; 70]].
+Proof. repeat split; vm_compute; reflexivity. Qed.
+
+(* non-vacuity: a layout with all seven kinds of gap items satisfies the hypotheses, and the
+   conclusion says something about it *)
+Definition ex_ts : list ptoken :=
+  [PText [65]; PSep 58; PSep 58; PSep 61; PText [83; 69; 81]; PText [79; 70]; PText [45; 53]; PSep 125].
+Definition ex_gs : list gap :=
+  [ [GLine [32; 104; 105] true; GTab];
+    [GSpace];
+    [];
+    [];
+    [GBlock [CChar 120; COpen; CChar 121; CNl; CClose; CChar 122]; GLf];
+    [GBlock [CChar 99]; GBlock [CCrNl]];
+    [GCrLf; GLine [] false; GSpace; GSpace];
+    [GBlock []];
+    [GLf] ].
+
+Example C13_nonvacuous :
+  lex_safe ex_ts ex_gs /\
+  tokenize release_mode (render ex_ts ex_gs) = Ok (expect ex_ts ex_gs) /\
+  map loc (expect ex_ts ex_gs) = [(2, 2); (2, 4); (2, 5); (2, 6); (4, 1); (5, 3); (7, 3); (7, 9)].
+Proof.
+  repeat split; vm_compute; reflexivity.
+Qed.
+
+Print Assumptions C13_tokenize.
+Print Assumptions C13_layout_invariant.
+Print Assumptions C13_locations.
+Print Assumptions C13_positions_intrinsic.
+Print Assumptions C13_fixed_block_comment_gap.
